@@ -38,7 +38,7 @@ func reloadFromGen(q *genQueue) *reloadQ {
 	return n
 }
 
-func cloneRes(r CoreRes) CoreRes {
+func reloadCloneRes(r CoreRes) CoreRes {
 	if r == nil {
 		return nil
 	}
@@ -50,7 +50,7 @@ func cloneRes(r CoreRes) CoreRes {
 }
 
 func (q *reloadQ) clone() *reloadQ {
-	n := &reloadQ{name: q.name, parent: q.parent, max: cloneRes(q.max), guar: cloneRes(q.guar), maxApps: q.maxApps, limits: q.limits}
+	n := &reloadQ{name: q.name, parent: q.parent, max: reloadCloneRes(q.max), guar: reloadCloneRes(q.guar), maxApps: q.maxApps, limits: q.limits}
 	if q.props != nil {
 		n.props = map[string]string{}
 		for k, v := range q.props {
@@ -172,9 +172,9 @@ func (q *reloadQ) fixup(parentMax CoreRes, parentApps int) {
 			}
 		}
 	}
-	eff := cloneRes(q.max)
+	eff := reloadCloneRes(q.max)
 	if eff == nil {
-		eff = cloneRes(parentMax)
+		eff = reloadCloneRes(parentMax)
 	} else if parentMax != nil {
 		for k, v := range parentMax {
 			if _, ok := eff[k]; !ok {
